@@ -175,6 +175,8 @@ Branches(kw, n, s) == [sk |-> "schema"] @@ (kw :> [j \in 1..n |-> s])
 Place(place, n, s, vals) ==
   CASE place = "none" -> [schema |-> s, ex |-> <<>>]
     [] place \in {"example", "x-example", "examples", "x-examples", "examples-ref", "examples-external"} -> [schema |-> s, ex |-> Outer(place, vals)]
+    [] place = "example+schema-example" ->      \* two carriers at once: the Parameter / Media Type Object and the schema
+         [schema |-> s, ex |-> Outer("example", <<vals[1]>>) \o <<InSchema(<<>>, "example", <<vals[2]>>)>>]
     [] place = "example-noschema" -> [schema |-> s, ex |-> Outer("example", vals)]       \* Media Type Object without `schema`
     [] place = "examples-noschema" -> [schema |-> s, ex |-> Outer("examples", vals)]
     [] place = "allOf-list" ->            \* a later allOf branch carries a JSON-Schema `examples` list
@@ -190,7 +192,7 @@ Place(place, n, s, vals) ==
 PlaceCounts(place) == CASE place = "none" -> {0} [] place \in {"example", "x-example", "schema-example"} -> {1}
                         [] place \in {"examples", "x-examples", "schema-examples"} -> {1, 2, 3}
                         [] place \in {"examples-external", "examples-noschema"} -> {1, 2} [] place = "example-noschema" -> {1}
-                        [] place = "allOf-list" -> {2, 3}
+                        [] place = "allOf-list" -> {2, 3} [] place = "example+schema-example" -> {2}
                         [] place = "examples-ref" -> {1, 2} [] place = "anyOf" -> {2} [] place = "oneOf" -> {2, 3} [] place = "allOf" -> {1, 2}
 ParamPlaces3 == {"none", "example", "examples", "examples-ref", "schema-example", "schema-examples", "anyOf", "oneOf", "allOf", "allOf-list"}
 ParamPlaces2 == {"none", "example", "x-example", "x-examples"}
@@ -267,6 +269,29 @@ BodyS(b, mt, req, bo, pos, sv) ==        \* pos = 0: no special value; else exam
              [] OTHER -> Place(place, n, ObjSchema, [j \in 1..n |-> IF j = pos THEN sv ELSE ObjEx(b, j)])
   IN [mt |-> mt, required |-> req, schema |-> pl.schema, ex |-> pl.ex, place |-> place]
 Body(b, mt, req, bo) == BodyS(b, mt, req, bo, 0, IntV(0))
+
+(* ---- twins: values that are DIFFERENT in JSON although a host language may call them equal (1 / true, 0 / false), ---- *)
+(* ---- bare or nested; two examples that are twins of each other are two examples.  (1 and 1.0 are the same JSON    ---- *)
+(* ---- number - Appendix D - and are therefore not twins.)                                                            ---- *)
+BoolV(b) == [t |-> "bool", v |-> b]
+Tenabled == <<101, 110, 97, 98, 108, 101, 100>>
+Twins == << <<IntV(1), BoolV(TRUE)>>, <<IntV(0), BoolV(FALSE)>> >>
+Nested(kind, v) == CASE kind = "scalar" -> v [] kind = "object" -> [t |-> "obj", k |-> <<Tenabled>>, v |-> <<v>>]
+                     [] kind = "array" -> [t |-> "arr", v |-> <<v>>]
+TwinVals(i, firstIsNumber, kind, n, filler) ==
+  LET a == Nested(kind, Twins[i][IF firstIsNumber THEN 1 ELSE 2])
+      b == Nested(kind, Twins[i][IF firstIsNumber THEN 2 ELSE 1])
+  IN IF n = 2 THEN <<a, b>> ELSE <<a, filler, b>>
+TwinPlaces3 == {x \in (ParamPlaces3 \cup {"example+schema-example"}) \X {2, 3} : x[2] \in PlaceCounts(x[1])}
+TwinPlaces2 == {<<"x-examples", 2>>, <<"x-examples", 3>>}
+ParamWithValues(k, loc, req, po, vals) ==
+  LET pl == Place(po[1], po[2], Empty, vals)
+  IN [name |-> PName(k), loc |-> loc, required |-> req, schema |-> pl.schema, ex |-> pl.ex, place |-> po[1]]
+BodyWithValues(b, mt, req, po, vals) ==
+  LET pl == IF po[1] = "property"
+            THEN [schema |-> PropSchema(Empty), ex |-> <<InSchema(<<Prop(Ta)>>, "examples-list", vals)>>]
+            ELSE Place(po[1], po[2], Empty, vals)
+  IN [mt |-> mt, required |-> req, schema |-> pl.schema, ex |-> pl.ex, place |-> po[1]]
 
 Second(tag, req) == IF tag = "absent" THEN <<>> ELSE <<Body(2, MTTextJson, req, IF tag = "none" THEN <<"none", 0>> ELSE <<"examples", 2>>)>>
 (* cfg: what the run is configured with besides the document - "none", or "header": an unrelated request header (-H) *)
@@ -397,7 +422,18 @@ InitP == \/ \E a \in PO(ParamPlaces3), b \in Few3 :                       \* Ope
               op = Op("3.1", <<Param(1, "query", FALSE, "integer", a), Param(2, "header", TRUE, "string", b)>>, <<>>, "openapi31")
          \/ \E bo \in BO(BodyPlaces3), ps \in {<<>>, <<Param(1, "query", TRUE, "string", <<"none", 0>>)>>} :
               op = Op("3.1", ps, <<Body(1, MTJson, TRUE, bo)>>, "openapi31")
-Init == InitQ \/ InitM \/ InitN \/ InitO \/ InitP \/ InitK \/ InitL \/ InitJ \/ InitI \/ InitA \/ InitB \/ InitC \/ InitD \/ InitE \/ InitF \/ InitG \/ InitH
+InitR == \/ \E loc \in {"query", "header", "cookie"}, i \in DOMAIN Twins, num1 \in BOOLEAN, po \in TwinPlaces3 :
+              \* twins as examples of one parameter, in both orders, in every carrier that holds several examples
+              op = Op("3.0", <<ParamWithValues(1, loc, FALSE, po, TwinVals(i, num1, "scalar", po[2], StrV(<<115, 49>>)))>>, <<>>, "twins")
+         \/ \E loc \in {"query", "header"}, i \in DOMAIN Twins, num1 \in BOOLEAN, po \in TwinPlaces2 :
+              op = Op("2.0", <<ParamWithValues(1, loc, TRUE, po, TwinVals(i, num1, "scalar", po[2], StrV(<<115, 49>>)))>>, <<>>, "twins")
+         \/ \E kind \in {"scalar", "object", "array"}, i \in DOMAIN Twins, num1 \in BOOLEAN,
+               po \in TwinPlaces3 \cup {<<"property", 2>>, <<"property", 3>>} :
+              \* twins as request bodies (bare, inside an object, inside an array) and as examples of one property
+              op = Op("3.0", <<>>, <<BodyWithValues(1, MTJson, TRUE, po, TwinVals(i, num1, kind, po[2], ObjEx(1, 9)))>>, "twins")
+         \/ \E kind \in {"scalar", "object"}, i \in DOMAIN Twins, num1 \in BOOLEAN, po \in TwinPlaces2 :
+              op = Op("2.0", <<>>, <<BodyWithValues(1, MTJson, TRUE, po, TwinVals(i, num1, kind, po[2], ObjEx(1, 9)))>>, "twins")
+Init == InitR \/ InitQ \/ InitM \/ InitN \/ InitO \/ InitP \/ InitK \/ InitL \/ InitJ \/ InitI \/ InitA \/ InitB \/ InitC \/ InitD \/ InitE \/ InitF \/ InitG \/ InitH
 Next == UNCHANGED op
 Spec == Init /\ [][Next]_op
 
